@@ -6,17 +6,70 @@ Every operation line is answered on four sides with  e=<illegal transition or ->
 x=<owner slots whose liveness contradicts the owner's size/index> A=<owner> B=<owner>;  a `detail` line after
 every operation compares the full slot map of both owners and the cumulative count of every kind of special
 member call between implementation and model only (spec/std column `*`)."""
+import concurrent.futures as cf
 import itertools
 import os
 import random
+import sys
 
+import lib
 from lib import Case, fmt_list
 
 PROP = "C03"
 DRIVER = "drv-c03"
 PROOF_MODULES = ["TetlProofs.C03.Props"]
 HARNESS = "harness/c03.cpp"
-HARNESS_FLAGS = ["-O0", "-g1"]
+BASE_FLAGS = ["-O0", "-g1"]
+HARNESS_FLAGS = list(BASE_FLAGS)
+NPARTS = 6     # one translation unit per element kind (harness/c03.cpp: -DC03_PART=k), compiled in parallel by run()
+
+
+def _build_parts():
+    """compile the six element kinds of the harness in parallel; returns the object files.  An object file is reused when the
+    preprocessed translation unit (every header of the tree under test expanded), the flags and the compiler are byte-identical
+    to those it was compiled from: any change of the library gives a new key."""
+    import hashlib
+    os.makedirs(lib.BUILD, exist_ok=True)
+    cache = os.path.join(lib.BUILD, "c03_objcache")
+    os.makedirs(cache, exist_ok=True)
+    flags = [f for f in lib.CXXFLAGS if f != "-g"] + BASE_FLAGS
+    cxxv = lib.sh([lib.CXX, "--version"])[1]
+
+    def one(k):
+        base = [lib.CXX] + flags + ["-DC03_PART=%d" % k, "-I", os.path.join(lib.REPO, "include"), "-I", os.path.join(lib.VERIF, "harness")]
+        src = os.path.join(lib.VERIF, HARNESS)
+        rc, o, e = lib.sh(base + ["-E", src], timeout=600)
+        if rc != 0:
+            return None, rc, o[-200:] + e
+        key = hashlib.sha256((cxxv + "\0" + " ".join(flags) + "\0" + o).encode()).hexdigest()[:32]
+        out = os.path.join(cache, "part%d_%s.o" % (k, key))
+        if os.path.exists(out):
+            os.utime(out)
+            return out, 0, "cached"
+        tmp = out + ".%d.tmp" % os.getpid()
+        rc, o, e = lib.sh(base + ["-c", src, "-o", tmp], timeout=1200)
+        if rc == 0:
+            os.replace(tmp, out)
+        return out, rc, o + e
+
+    with cf.ThreadPoolExecutor(max_workers=NPARTS) as ex:
+        res = list(ex.map(one, range(NPARTS)))
+    bad = [r for r in res if r[1] != 0]
+    if bad:
+        raise lib.MachineryError("harness does not compile against %s:\n%s" % (lib.REPO, bad[0][2][-1500:]))
+    olds = sorted((os.path.join(cache, f) for f in os.listdir(cache)), key=os.path.getmtime)
+    for f in olds[:-12 * NPARTS]:
+        os.unlink(f)
+    return [r[0] for r in res]
+
+
+def run(ctx, replay=None):
+    """standard flow of check.py, with the element kinds of the harness pre-compiled in parallel"""
+    global HARNESS_FLAGS
+    objs = _build_parts()
+    HARNESS_FLAGS = BASE_FLAGS + ["-DC03_PART=-1"] + objs
+    import check
+    return check.standard(sys.modules[__name__], ctx, replay)
 SOURCES = ["include/etl/_vector/static_vector.hpp", "include/etl/_inplace_vector/inplace_vector.hpp",
            "include/etl/_variant/variant.hpp", "include/etl/_variant/variadic_union.hpp",
            "include/etl/_optional/optional.hpp", "include/etl/_expected/expected.hpp",
@@ -35,10 +88,11 @@ RULE = ("A case is a history on two owners A, B of one type, ended by the destru
         "move constructor and move assignment with user-provided copy operations and destructor, dc = defaulted copy constructor "
         "and copy assignment with user-provided move operations and destructor — the kinds on which the owners' requires "
         "clauses (variant_trivially_copy/move_assignable, trivially-constructible / destructible clauses) decide between the "
-        "owner's own special member and the defaulted one. For the mixed kinds the quick tier runs the one-step box at "
-        "capacities 2,3, from every pair of live alternatives / stored callables EVERY single operation, and a 30% (containers "
-        "14%) sample of the operation pairs; the thorough tier treats them like the other kinds at half the sampling rate of "
-        "the depth-3 sequences. Exhaustive part: for the containers, from EVERY pair of "
+        "owner's own special member and the defaulted one. For the mixed kinds variant / optional / expected are explored like "
+        "the other kinds (every pair of operations from every pair of live alternatives); the quick tier runs the containers' "
+        "one-step box at capacities 2,3 with a 14% sample of the operation pairs, and for inplace_function every single "
+        "operation from every start with a 30% sample of the pairs; the thorough tier samples their depth-3 sequences at half "
+        "the rate of the other kinds. Exhaustive part: for the containers, from EVERY pair of "
         "sizes (|A|,|B|) in [0,cap]^2 every member with every position / range / count it accepts (one-step box), and from "
         "every size pair every sequence of 2 (thorough: 3) operations of an alphabet of 12-19 letters that contains every "
         "copy/move/assign/swap/self form; for variant / optional / expected / inplace_function from EVERY pair of live "
@@ -476,8 +530,8 @@ def generate(tier, seed):
                         sim.has = [True, True]
                     for args in sim.instances(m, t, None, full=True) or [""]:
                         letters.append((m, t, args))
-            if mixed and not thorough:
-                # quick tier, mixed kinds: from every start EVERY single operation (exhaustive), pairs sampled below
+            if mixed and not thorough and own == "fn":
+                # quick tier, mixed kinds, inplace_function: from every start EVERY single operation (exhaustive), pairs sampled below
                 for st in starts:
                     for m, t, args in letters:
                         sim = new_sim(own, 1)
@@ -492,7 +546,7 @@ def generate(tier, seed):
                 for seq in itertools.product(letters, repeat=depth):
                     if depth == 3 and rnd.random() > {"var": 0.04, "fn": 0.08}.get(own, 0.25) * (0.5 if mixed else 1.0):
                         continue
-                    if depth == 2 and mixed and rnd.random() > 0.3:
+                    if depth == 2 and mixed and own == "fn" and rnd.random() > 0.3:
                         continue
                     if depth == 2 and own in ("var", "fn") and seq[0][1] != seq[1][1] and not (seq[0][0] in BINARY or seq[1][0] in BINARY):
                         # two single-owner operations on different owners touch disjoint storage and commute; each of
